@@ -247,7 +247,9 @@ func (e *Engine) verifyFuncMode(c *Contract, mode string) (rep *FuncReport) {
 			continue
 		}
 		f := s.evalBoolClause(fr, rq, st, nil)
+		s.curOrigin = "requires"
 		s.assume(f)
+		s.curOrigin = ""
 	}
 	s.reqEnd = len(s.asserts)
 	fr.old = st.clone()
@@ -278,7 +280,7 @@ func (e *Engine) verifyFuncMode(c *Contract, mode string) (rep *FuncReport) {
 		subs := splitClause(en)
 		for _, sub := range subs {
 			f := s.evalGoalClauseAt(fr, sub, out, nil, -1)
-			s.addObl(&Obligation{Name: fmt.Sprintf("%s/post.%s", short, clauseNameSplit(en, i, sub, len(subs))), Kind: "post", Func: short, Src: "ensures " + sub.Src, Guard: out.Reach, Formula: f})
+			s.addObl(&Obligation{Name: fmt.Sprintf("%s/post.%s", short, clauseNameSplit(en, i, sub, len(subs))), Kind: "post", Func: short, Src: "ensures " + sub.Src, Guard: out.Reach, Formula: f, Using: en.Using})
 		}
 	}
 	if c.ModGiven && c.Options["assumeframe"] == "" {
